@@ -26,7 +26,7 @@ ASSUMPTIONS = [
     "times given as an integer or as a full {min,max} pair; min-only / max-only spellings are not asserted (defaults are not part of the statement)",
     "operand-level times is judged by the metamorphic relation only",
 ]
-KINDS = ["item", "item-ops", "$and", "$or", "$not", "$and_any_order", "nested-times"]
+KINDS = ["item", "item-ops", "$and", "$or", "$not", "$and_any_order", "nested-times", "nested-times"]
 SHAPES = ["sandwich", "sandwich", "sandwich", "free", "meta", "meta"]
 FLOORS = {"shape=sandwich": 0.3, "shape=meta": 0.2, "edge=min": 0.05, "edge=max": 0.05, "edge=max+1": 0.04, "edge=min-1": 0.03}
 for _k in KINDS:
@@ -86,11 +86,11 @@ def build_x(draw, kind, full=(False, False)):
         # ($and[nop times 2] times {1,2} is 2 or 4 nops, never 3)
         b = fresh(draw)
         inner = describe_inst(draw, ("0", b[0], b[2]), full)
-        lo_in = draw(st.integers(1, 2))
-        hi_in = draw(st.integers(lo_in, lo_in + 1))
+        lo_in = draw(st.sampled_from([1, 2, 2, 3]))
+        hi_in = lo_in if draw(st.integers(0, 2)) else lo_in + 1  # mostly an exact inner count: totals between its multiples are gaps
         t_in = lo_in if lo_in == hi_in and draw(st.booleans()) else {"min": lo_in, "max": hi_in}
         child = attach(inner, t_in, "inside" if isinstance(inner, (str, int)) else "sibling")
-        node = {draw(st.sampled_from(["$and", "$and", "$or"])): [child]}
+        node = {draw(st.sampled_from(["$and", "$or"])): [child]}
         return node, [[b] * c for c in range(lo_in, hi_in + 1)]
     if kind == "$and":
         bs = [fresh(draw) for _ in range(draw(st.integers(1, 3)))]
@@ -166,7 +166,7 @@ def cases(draw):
         # one repetition is the forbidden instruction itself
         body[draw(st.integers(0, len(body) - 1))] = inst_alts[-1][0]
     ext = "none"
-    if kind == "nested-times" and body and draw(st.integers(0, 2)) == 0:
+    if kind == "nested-times" and body and draw(st.booleans()):
         # one inner instruction too few / too many: the total is no longer a sum of whole repetitions
         if draw(st.booleans()):
             del body[draw(st.integers(0, len(body) - 1))]
